@@ -14,7 +14,7 @@ from .flow import Engine
 FIXES = os.environ.get("VERIF_MPMCB_FIXES", "0000000")
 
 AR = {"ts": 2, "tr": 2, "sd": 2, "rv": 2, "rt": 2, "cl": 3, "cs": 2, "dr": 2, "cv": 3, "ob": 2,
-      "ms": 3, "mr": 3, "po": 3, "df": 2}
+      "ms": 3, "mr": 3, "po": 3, "df": 2, "tsb": 3, "tsm": 3, "trb": 3, "trm": 3}
 
 CAPS = [1, 1, 2, 2, 3, 4, 5, 7, 8]
 
@@ -52,6 +52,9 @@ class MpmcbEngine(Engine):
             "2 s %s sd 0 sd 0 sd 0 rv 1 rv 1 rv 1 cs 0 rv 1 sd 0" % F,
             "2 s %s ts 0 dr 0 tr 1 tr 1 dr 1" % F,
             "2 a %s ms 5 0 df 5 ms 6 0 po 6 1 df 6 tr 1 dr 0 dr 1" % F,
+            "2 s %s tsb 0 3 trb 1 5 tsm 0 0 trm 1 0 trb 1 2 tsm 0 3 trm 1 1 trb 1 9" % F,            # batch forms
+            "3 a %s mr 10 1 po 10 7 mr 11 1 po 11 8 tsb 0 5 po 10 7 trm 1 4 cs 0 tsm 0 2 trb 1 1" % F,
+            "1 a %s ts 0 ms 10 0 po 10 7 cl 0 2 ms 11 2 po 11 8 trb 1 3 dr 1 tsb 0 2" % F,
         ]
 
     # ------------------------------------------------------------------ generator
@@ -83,11 +86,11 @@ class MpmcbEngine(Engine):
                 return None
             return rng.pick(c)
 
-        w_flow = {"ts": 30, "tr": 26, "sd": 6, "rv": 6, "rt": 5, "ob": 6, "cl": 4, "cs": 3, "dr": 3, "cv": 2,
+        w_flow = {"tsb": 5, "tsm": 4, "trb": 5, "trm": 4, "ts": 30, "tr": 26, "sd": 6, "rv": 6, "rt": 5, "ob": 6, "cl": 4, "cs": 3, "dr": 3, "cv": 2,
                   "ms": 4, "mr": 4, "po": 10, "df": 3}
-        w_life = {"ts": 14, "tr": 12, "sd": 4, "rv": 4, "rt": 6, "ob": 6, "cl": 14, "cs": 12, "dr": 10, "cv": 10,
+        w_life = {"tsb": 3, "tsm": 2, "trb": 3, "trm": 2, "ts": 14, "tr": 12, "sd": 4, "rv": 4, "rt": 6, "ob": 6, "cl": 14, "cs": 12, "dr": 10, "cv": 10,
                   "ms": 3, "mr": 3, "po": 6, "df": 2}
-        w_async = {"ts": 16, "tr": 14, "sd": 1, "rv": 1, "rt": 1, "ob": 4, "cl": 6, "cs": 4, "dr": 3, "cv": 2,
+        w_async = {"tsb": 4, "tsm": 3, "trb": 4, "trm": 3, "ts": 16, "tr": 14, "sd": 1, "rv": 1, "rt": 1, "ob": 4, "cl": 6, "cs": 4, "dr": 3, "cv": 2,
                    "ms": 10, "mr": 12, "po": 34, "df": 8}
         W = {"flow": w_flow, "life": w_life, "async": w_async}[bias]
         pairs = sorted(W.items())
@@ -97,6 +100,14 @@ class MpmcbEngine(Engine):
                 h = pick_h(lambda v: v[0])
                 if h is not None:
                     toks += [op, str(h)]
+            elif op in ("tsb", "tsm"):
+                h = pick_h(lambda v: v[0])
+                if h is not None:
+                    toks += [op, str(h), str(rng.pick([0, 1, 1, 2, 2, 3, cap, cap + 1, cap + 2]))]
+            elif op in ("trb", "trm"):
+                h = pick_h(lambda v: not v[0])
+                if h is not None:
+                    toks += [op, str(h), str(rng.pick([0, 1, 1, 2, 2, 3, cap, cap + 1]))]
             elif op == "sd":
                 h = pick_h(lambda v: v[0] and not v[1])
                 if h is not None:
@@ -420,6 +431,63 @@ def monitor(eng, line, out):
                         hit("C01:failed-op-effect", "blocking recv would block while ids %r are buffered" % Q)
                 elif r0 != "PANIC":
                     hit("C01:bad-output", "%s -> %s" % (desc, " ".join(res)))
+        elif code in ("tsb", "tsm"):
+            h, n = int(op[1]), int(op[2])
+            if valid(h, lambda v: v["tx"]) and r0 in ("ok", "err", "closed"):
+                v = H[h]
+                ins = list(range(nxt, nxt + n))
+                nxt += n
+                nums = [int(x) for x in res[1:] if x.lstrip("-").isdigit()]
+                if r0 == "ok":
+                    sent = nums[0] if nums else 0
+                    rest = nums[1:]
+                elif r0 == "err":
+                    sent = nums[0] if nums else 0
+                    rest = nums[1:]
+                else:
+                    sent, rest = 0, nums
+                if ins[:sent] + rest != ins or len(rest) != n - sent:
+                    hit("C01:failed-op-effect", "%s: sent %d + unsent %r is not the input %r in order" % (code, sent, rest, ins))
+                for x in rest:
+                    handed_back.add(x)
+                if sent > 0 and v["closed"] is True:
+                    hit("C04:closed-handle-accepts", "%s on closed handle %d accepted %d item(s)" % (code, h, sent))
+                for x in ins[:sent]:
+                    send_accepted(x, h, code)
+                why = "closed" if (r0 == "closed" or (r0 == "err" and "closed" in res)) else ("full" if r0 == "err" or (code == "tsm" and rest) else None)
+                if why == "closed":
+                    send_closed(h, code)
+                elif why == "full":
+                    if len(Q) < cap and v["closed"] is not True:
+                        hit("C03:try-send-wrong", "%s stopped with %d of %d slots used" % (code, len(Q), cap))
+        elif code in ("trb", "trm"):
+            h, m = int(op[1]), int(op[2])
+            if valid(h, lambda v: not v["tx"]):
+                v = H[h]
+                if r0 in ("v", "n"):
+                    xs = [int(x) for x in (res[1:] if r0 == "v" else res[2:])]
+                    if m > 0 and v["closed"] is True and xs:
+                        hit("C04:closed-handle-accepts", "%s on closed handle %d returned %r" % (code, h, xs))
+                    if len(xs) > m:
+                        hit("C01:failed-op-effect", "%s returned %d items, max was %d" % (code, len(xs), m))
+                    if m > 0 and not xs:
+                        hit("C01:bad-output", "%s returned an empty batch" % code)
+                    if xs and v["closed"] is None:
+                        resolve_open(h, "received a batch")
+                    for x in xs:
+                        got_value(x, h, code)
+                    if m > 0 and xs and len(xs) < m and Q:
+                        hit("C01:failed-op-effect", "%s returned %d of max %d items while ids %r stay buffered" % (code, len(xs), m, Q))
+                elif r0 == "empty":
+                    if v["closed"] is True:
+                        hit("C04:closed-handle-accepts", "%s on closed handle %d reported Empty" % (code, h))
+                    elif Q:
+                        hit("C01:failed-op-effect", "%s reported Empty while ids %r are buffered" % (code, Q))
+                    elif nopen(True) == 0 and nunknown(True) == 0 and v["closed"] is False:
+                        hit(count_clause(True) if ("conv", True) in trig else "C04:missing-disc",
+                            "%s reported Empty although no open sender handle exists" % code)
+                elif r0 == "disc":
+                    got_disc(h, code)
         elif code == "ob":
             h = int(op[1])
             if valid(h, lambda v: True) and r0 == "o":
